@@ -16,9 +16,9 @@ import (
 
 type shape struct {
 	name      string
-	writes    []M   // set / insert / delete ops (without txn id)
-	locks     []int // keys only locked (pessimistic) and not written
-	lockFirst []int // pessimistic: keys locked by a first call (the primary is chosen among them), the rest by a second call
+	writes    []M    // set / insert / delete ops (without txn id)
+	locks     []int  // keys only locked (pessimistic) and not written
+	lockFirst []int  // pessimistic: keys locked by a first call (the primary is chosen among them), the rest by a second call
 	alevel    string // assertion level ("" = off, "fast", "strict")
 }
 
@@ -49,9 +49,24 @@ var shapes = []shape{
 var layouts = [][]int{{}, {3}, {2, 3, 4}}
 var baseData = map[int]int{1: 1, 2: 2, 4: 4}
 
+// the victim's commit mode (unistore mode only: mocktikv implements neither async commit nor 1PC)
+type cmode struct {
+	name         string
+	async, onepc bool
+}
+
+var victimMode = cmode{"2pc", false, false}
+
+func cmodes() []cmode {
+	if !useUni {
+		return []cmode{{"2pc", false, false}}
+	}
+	return []cmode{{"2pc", false, false}, {"async", true, false}, {"1pc", false, true}, {"async+1pc", true, true}}
+}
+
 // victimOps builds the victim's program up to (not including) commit
 func victimOps(sh shape, pess bool) []M {
-	ops := []M{{"c": "begin", "txn": "v", "client": "v", "pess": pess, "async": false, "onepc": false, "alevel": sh.alevel}}
+	ops := []M{{"c": "begin", "txn": "v", "client": "v", "pess": pess, "async": victimMode.async, "onepc": victimMode.onepc, "alevel": sh.alevel}}
 	if pess {
 		ks := append([]int{}, sh.locks...)
 		seen := map[int]bool{}
@@ -196,83 +211,94 @@ func runC02(w *World, rng *rand.Rand, div int) {
 		div = 1
 	}
 	cnt := 0
-	for si, sh := range shapes {
-		for li, lay := range layouts {
-			for _, pess := range []bool{false, true} {
-				// dry run: how many RPCs does Commit issue for this shape?
-				w.reset(M{"kind": "c02dry", "shape": sh.name, "pess": pess}, lay)
-				r := &Run{w: w, txns: map[string]*Txn{}}
-				r.setup(baseData)
-				firstCommit := int32(-1)
-				n := runVictim(w, r, sh, pess, func(idx int, req *tikvrpc.Request) Action {
-					if req.Type == tikvrpc.CmdCommit {
-						atomic.CompareAndSwapInt32(&firstCommit, -1, int32(idx))
+	defer func() { victimMode = cmode{"2pc", false, false} }()
+	for _, cm := range cmodes() {
+		victimMode = cm
+		for si, sh := range shapes {
+			for li, lay := range layouts {
+				for _, pess := range []bool{false, true} {
+					if useUni && cm.async && pess && len(sh.locks) > 0 {
+						// unistore keeps no commit record for a lock-only SECONDARY key (writeBatch.Commit writes the Op_Lock status for
+						// the primary only): CheckSecondaryLocks on such a key after its commit reports "no lock, not committed" and
+						// writes a rollback, which contradicts the other secondaries. TiKV keeps a Lock-type write record. Not driven.
+						continue
 					}
-					return Action{}
-				})
-				w.recoverAll(r)
-				type cp struct {
-					i    int
-					f    string
-					comp string
-				}
-				var points []cp
-				for i := 0; i < n; i++ {
-					for fi, f := range []string{"crash_before", "crash_after"} {
-						cnt++
-						if firstCommit >= 0 && i >= int(firstCommit) {
-							// the window in which the outcome is already decided on the primary: every companion
-							for _, c := range companions {
-								points = append(points, cp{i, f, c})
-							}
-							continue
+					// dry run: how many RPCs does Commit issue for this shape?
+					w.reset(M{"kind": "c02dry", "shape": sh.name, "pess": pess, "cmode": cm.name}, lay)
+					r := &Run{w: w, txns: map[string]*Txn{}}
+					r.setup(baseData)
+					firstCommit := int32(-1)
+					n := runVictim(w, r, sh, pess, func(idx int, req *tikvrpc.Request) Action {
+						if req.Type == tikvrpc.CmdCommit {
+							atomic.CompareAndSwapInt32(&firstCommit, -1, int32(idx))
 						}
-						points = append(points, cp{i, f, companions[(i+si+li+fi+cnt)%len(companions)]})
+						return Action{}
+					})
+					w.recoverAll(r)
+					type cp struct {
+						i    int
+						f    string
+						comp string
 					}
-				}
-				for pi, pt := range points {
-					{
-						i, f, comp := pt.i, pt.f, pt.comp
-						cnt++
-						if (pi+int(rng.Int63()%int64(div)))%div != 0 {
-							continue
+					var points []cp
+					for i := 0; i < n; i++ {
+						for fi, f := range []string{"crash_before", "crash_after"} {
+							cnt++
+							if firstCommit >= 0 && i >= int(firstCommit) {
+								// the window in which the outcome is already decided on the primary: every companion
+								for _, c := range companions {
+									points = append(points, cp{i, f, c})
+								}
+								continue
+							}
+							points = append(points, cp{i, f, companions[(i+si+li+fi+cnt)%len(companions)]})
 						}
-						w.reset(M{"kind": "c02", "shape": sh.name, "pess": pess, "crash_idx": i, "crash": f, "companion": comp, "rpcs": n}, lay)
-						r := &Run{w: w, txns: map[string]*Txn{}}
-						r.setup(baseData)
-						warm(w, "zr", "r", "x", "g")
-						var fired int32
-						runVictim(w, r, sh, pess, func(idx int, req *tikvrpc.Request) Action {
-							if idx == i && atomic.CompareAndSwapInt32(&fired, 0, 1) {
-								return Action{kind: f}
+					}
+					for pi, pt := range points {
+						{
+							i, f, comp := pt.i, pt.f, pt.comp
+							cnt++
+							if (pi+int(rng.Int63()%int64(div)))%div != 0 {
+								continue
 							}
-							return Action{}
-						})
-						// whatever the victim still tries is lost with it
-						w.client("v").gate.dead.Store(true)
-						if len(sh.writes) > 1 && (cnt/div)%3 == 0 {
-							// a second client reuses the first victim's primary key and dies right after its prewrite: two dead
-							// transactions with the same primary key are then met by the same recovery pass
-							pk := geti(sh.writes[0], "k")
-							if len(sh.lockFirst) > 0 {
-								pk = sh.lockFirst[0]
-							}
-							var f2 int32
-							runVictimAs(w, r, "v2", shape{"second", []M{{"c": "set", "k": pk, "v": 21}}, nil, nil, ""}, false, func(idx int, req *tikvrpc.Request) Action {
-								if req.Type == tikvrpc.CmdPrewrite && atomic.CompareAndSwapInt32(&f2, 0, 1) {
-									return Action{kind: "crash_after"}
+							w.reset(M{"kind": "c02", "shape": sh.name, "pess": pess, "crash_idx": i, "crash": f, "companion": comp, "rpcs": n, "cmode": cm.name}, lay)
+							r := &Run{w: w, txns: map[string]*Txn{}}
+							r.setup(baseData)
+							warm(w, "zr", "r", "x", "g")
+							var fired int32
+							runVictim(w, r, sh, pess, func(idx int, req *tikvrpc.Request) Action {
+								if idx == i && atomic.CompareAndSwapInt32(&fired, 0, 1) {
+									return Action{kind: f}
 								}
 								return Action{}
 							})
-							w.client("v2").gate.dead.Store(true)
+							// whatever the victim still tries is lost with it
+							w.client("v").gate.dead.Store(true)
+							if len(sh.writes) > 1 && (cnt/div)%3 == 0 {
+								// a second client reuses the first victim's primary key and dies right after its prewrite: two dead
+								// transactions with the same primary key are then met by the same recovery pass
+								pk := geti(sh.writes[0], "k")
+								if len(sh.lockFirst) > 0 {
+									pk = sh.lockFirst[0]
+								}
+								var f2 int32
+								runVictimAs(w, r, "v2", shape{"second", []M{{"c": "set", "k": pk, "v": 21}}, nil, nil, ""}, false, func(idx int, req *tikvrpc.Request) Action {
+									if req.Type == tikvrpc.CmdPrewrite && atomic.CompareAndSwapInt32(&f2, 0, 1) {
+										return Action{kind: "crash_after"}
+									}
+									return Action{}
+								})
+								w.client("v2").gate.dead.Store(true)
+							}
+							companion(w, r, comp)
+							w.recoverAll(r)
 						}
-						companion(w, r, comp)
-						w.recoverAll(r)
 					}
 				}
 			}
 		}
 	}
+	victimMode = cmode{"2pc", false, false}
 	// two dead transactions that share a primary key, met by one GC-style batch resolution (or by a reader)
 	for _, sh := range shapes {
 		if len(sh.writes) < 2 {
@@ -344,7 +370,7 @@ func runC02(w *World, rng *rand.Rand, div int) {
 	_ = fmt.Sprint
 }
 
-var faultKinds = []string{"blackout", "drop_req", "drop_resp", "not_leader", "epoch_not_match", "server_busy", "stale_command", "split", "expire_resolve", "push_minc", "undetermined"}
+var faultKinds = []string{"blackout", "drop_req", "drop_resp", "not_leader", "epoch_not_match", "server_busy", "stale_command", "split", "expire_resolve", "push_minc", "undetermined", "resolver_dies"}
 
 func faultAction(w *World, r *Run, f string, tag string) Action {
 	switch f {
@@ -354,6 +380,25 @@ func faultAction(w *World, r *Run, f string, tag string) Action {
 		return Action{pre: func() {
 			w.advance(30000)
 			r.seq("r"+tag, M{"c": "begin", "txn": "rd" + tag, "pess": false}, M{"c": "batchget", "txn": "rd" + tag, "ks": []int{1, 2, 3, 4}}, M{"c": "rollback", "txn": "rd" + tag})
+		}}
+	case "resolver_dies": // another client resolves every lock it finds as expired (as GC's batch resolution does) and dies after its first ResolveLock took effect
+		return Action{pre: func() {
+			cl := w.client("h" + tag)
+			var n int32
+			w.schedMu.Lock()
+			cl.gate.policy = func(idx int, req *tikvrpc.Request) Action {
+				if req.Type == tikvrpc.CmdResolveLock && atomic.AddInt32(&n, 1) == 1 {
+					return Action{kind: "crash_after"}
+				}
+				return Action{}
+			}
+			w.schedMu.Unlock()
+			ts, err := cl.store.CurrentTimestamp("global")
+			if err == nil {
+				_, err = tikv.ResolveLocksForRange(context.Background(), tikv.NewRegionLockResolver("verif-half", cl.store), ts, nil, nil, tikv.NewGcResolveLockMaxBackoffer, 2)
+				w.rec.emit(M{"ev": "gc_resolve", "client": "h" + tag, "safepoint": cts(ts), "class": errClass(err)})
+			}
+			cl.gate.dead.Store(true)
 		}}
 	case "push_minc": // a reader meets the live locks: it may push min-commit-ts, it must not remove them
 		return Action{pre: func() {
@@ -373,54 +418,83 @@ func runC03(w *World, rng *rand.Rand, div int) {
 		div = 1
 	}
 	cnt := 0
-	for _, sh := range shapes {
-		for _, lay := range layouts {
-			for _, pess := range []bool{false, true} {
-				w.reset(M{"kind": "c03dry", "shape": sh.name, "pess": pess}, lay)
-				r := &Run{w: w, txns: map[string]*Txn{}}
-				r.setup(baseData)
-				n := runVictim(w, r, sh, pess, nil)
-				w.recoverAll(r)
-				type script struct {
-					i1 int
-					f1 string
-					i2 int
-					f2 string
-				}
-				var scripts []script
-				for i := 0; i < n; i++ {
-					for _, f := range faultKinds {
-						scripts = append(scripts, script{i, f, -1, ""})
+	defer func() { victimMode = cmode{"2pc", false, false} }()
+	for _, cm := range cmodes() {
+		victimMode = cm
+		for _, sh := range shapes {
+			for _, lay := range layouts {
+				for _, pess := range []bool{false, true} {
+					if useUni && cm.async && pess && len(sh.locks) > 0 {
+						continue // see runC02: unistore keeps no commit record for a lock-only secondary key
 					}
-				}
-				// doubles: sampled
-				for d := 0; d < n*2; d++ {
-					i1, i2 := rng.Intn(n), rng.Intn(n+2)
-					scripts = append(scripts, script{i1, faultKinds[rng.Intn(len(faultKinds))], i2, faultKinds[rng.Intn(len(faultKinds))]})
-				}
-				for _, sc := range scripts {
-					cnt++
-					if (cnt+int(rng.Int63()%int64(div)))%div != 0 {
-						continue
-					}
-					benign := func(f string) bool {
-						return f == "" || f == "not_leader" || f == "epoch_not_match" || f == "server_busy" || f == "stale_command" || f == "split"
-					}
-					w.reset(M{"kind": "c03", "shape": sh.name, "pess": pess, "i1": sc.i1, "f1": sc.f1, "i2": sc.i2, "f2": sc.f2, "rpcs": n,
-						"lossless": benign(sc.f1) && benign(sc.f2)}, lay)
+					w.reset(M{"kind": "c03dry", "shape": sh.name, "pess": pess, "cmode": cm.name}, lay)
 					r := &Run{w: w, txns: map[string]*Txn{}}
 					r.setup(baseData)
-					var f1, f2 int32
-					runVictim(w, r, sh, pess, func(idx int, req *tikvrpc.Request) Action {
-						if idx == sc.i1 && atomic.CompareAndSwapInt32(&f1, 0, 1) {
-							return faultAction(w, r, sc.f1, "a")
-						}
-						if sc.i2 >= 0 && idx == sc.i2 && atomic.CompareAndSwapInt32(&f2, 0, 1) {
-							return faultAction(w, r, sc.f2, "b")
+					isPrewrite := map[int]bool{}
+					n := runVictim(w, r, sh, pess, func(idx int, req *tikvrpc.Request) Action {
+						if req.Type == tikvrpc.CmdPrewrite {
+							isPrewrite[idx] = true
 						}
 						return Action{}
 					})
 					w.recoverAll(r)
+					type script struct {
+						i1 int
+						f1 string
+						i2 int
+						f2 string
+					}
+					var scripts []script
+					for i := 0; i < n; i++ {
+						for _, f := range faultKinds {
+							scripts = append(scripts, script{i, f, -1, ""})
+						}
+					}
+					// the store carried a prewrite out but calls the result undetermined; when the committer starts to clean up, another
+					// client resolves the transaction's locks and dies half-way (i2 = -2: at the victim's first BatchRollback)
+					for i := 0; i < n; i++ {
+						if isPrewrite[i] {
+							scripts = append(scripts, script{i, "undetermined", -2, "resolver_dies"})
+						}
+					}
+					// doubles: sampled
+					for d := 0; d < n*2; d++ {
+						i1, i2 := rng.Intn(n), rng.Intn(n+2)
+						scripts = append(scripts, script{i1, faultKinds[rng.Intn(len(faultKinds))], i2, faultKinds[rng.Intn(len(faultKinds))]})
+					}
+					for _, sc := range scripts {
+						cnt++
+						if (cnt+int(rng.Int63()%int64(div)))%div != 0 {
+							continue
+						}
+						benign := func(f string) bool {
+							return f == "" || f == "not_leader" || f == "epoch_not_match" || f == "server_busy" || f == "stale_command" || f == "split"
+						}
+						w.reset(M{"kind": "c03", "shape": sh.name, "pess": pess, "i1": sc.i1, "f1": sc.f1, "i2": sc.i2, "f2": sc.f2, "rpcs": n,
+							"lossless": benign(sc.f1) && benign(sc.f2), "cmode": cm.name}, lay)
+						r := &Run{w: w, txns: map[string]*Txn{}}
+						r.setup(baseData)
+						var f1, f2 int32
+						// unistore's prewrite honours a rollback record of its own transaction on the primary key only, and answers a
+						// non-locking batch with a min-commit-ts of its own: a resolver that forces expiry while an async-commit
+						// committer is still prewriting is not judged on it (TiKV refuses the late prewrite)
+						early := func(f string, req *tikvrpc.Request) bool {
+							return useUni && cm.async && f == "resolver_dies" && req.Type != tikvrpc.CmdCommit && req.Type != tikvrpc.CmdBatchRollback
+						}
+						runVictim(w, r, sh, pess, func(idx int, req *tikvrpc.Request) Action {
+							if idx == sc.i1 && !early(sc.f1, req) && atomic.CompareAndSwapInt32(&f1, 0, 1) {
+								return faultAction(w, r, sc.f1, "a")
+							}
+							if sc.i2 >= 0 && idx == sc.i2 && !early(sc.f2, req) && atomic.CompareAndSwapInt32(&f2, 0, 1) {
+								return faultAction(w, r, sc.f2, "b")
+							}
+							if sc.i2 == -2 && req.Type == tikvrpc.CmdBatchRollback && atomic.CompareAndSwapInt32(&f2, 0, 1) {
+								return faultAction(w, r, sc.f2, "b")
+							}
+							return Action{}
+						})
+						w.recoverAll(r)
+					}
 				}
 			}
 		}
